@@ -46,6 +46,7 @@ type thread struct {
 	done bool
 	goid uint64
 	pass bool // inside Passthrough: hooks ignore this thread
+	parent int
 }
 
 func (t *thread) enabled() bool { return !t.done && (t.cond == nil || t.cond()) }
@@ -273,6 +274,11 @@ func (s *Sched) threadMain(t *thread, f func()) {
 			return
 		}
 		t.done = true
+		if t.id == 0 {
+			// the harness body returned: remaining (daemon) threads are unwound, this is not a deadlock
+			s.abort()
+			return
+		}
 		next := s.pick(nil)
 		if next != nil {
 			s.cur = next
@@ -297,7 +303,10 @@ func (s *Sched) threadMain(t *thread, f func()) {
 }
 
 func (s *Sched) spawn(name string, f func()) *thread {
-	t := &thread{s: s, id: len(s.threads), name: name, wake: make(chan struct{}, 1)}
+	t := &thread{s: s, id: len(s.threads), name: name, wake: make(chan struct{}, 1), parent: -1}
+	if s.cur != nil {
+		t.parent = s.cur.id
+	}
 	s.live.Add(1)
 	if name == "" {
 		t.name = fmt.Sprintf("t%d", t.id)
@@ -347,6 +356,25 @@ func Join() {
 	s.yield(t, func() bool {
 		for _, th := range s.threads {
 			if th != t && !th.done {
+				return false
+			}
+		}
+		return true
+	})
+}
+
+// JoinChildren blocks the calling thread until every thread it started itself has finished. Threads
+// started by those threads (background tasks of the code under test, e.g. a goroutine that waits for a
+// context to end) are treated as daemons: they do not hold up JoinChildren, and they are unwound when
+// the main thread returns.
+func JoinChildren() {
+	s, t := self()
+	if t == nil {
+		return
+	}
+	s.yield(t, func() bool {
+		for _, th := range s.threads {
+			if th != t && th.parent == t.id && !th.done {
 				return false
 			}
 		}
